@@ -7,6 +7,7 @@ let () =
     | "c04" -> C04.run_line
     | "c16" -> C16.run_line
     | "c18" -> C18.run_line
+    | "c19" -> C19.run_line
     | "c20" -> C20.run_line
     | "c01" | "c02" | "c12" -> C02.run_line
     | "c05" -> C05.run_line
